@@ -2342,9 +2342,9 @@ def rewrite_mul_sigmoid_as_swish_ir(graph: ir.Graph) -> None:
             )
             graph.remove(node)
             remaining_nodes = list(graph)
-            if not _value_is_graph_output(graph, sigmoid_out) and not _consumer_nodes(
-                remaining_nodes, sigmoid_out
-            ):
+            if not _value_is_observed(
+                graph, remaining_nodes, sigmoid_out
+            ) and not _consumer_nodes(remaining_nodes, sigmoid_out):
                 graph.remove(sigmoid_node)
             changed = True
             break
